@@ -13,12 +13,16 @@ MANIFEST = {
             "rfc6979.deterministic_generate_k (HMAC-SHA256): verify accepts exactly when 1 <= r,s < n and x((z/s)G + (r/s)Q) mod n = r in "
             "Mathlib's group; signatures produced by sign verify under d*G and lie in range; verify is invariant under s -> n-s; recovered "
             "keys verify and contain the signer; the nonce equals an RFC 6979 specification written from the RFC text. Generic in a curve "
-            "with p, n prime and n*G = infinity, facts proved for secp256k1/secp256r1 in C02. Model tied to the code by differential "
+            "with p, n prime and n*G = infinity, facts proved for secp256k1/secp256r1 in C02, together with #E(F_p) = n, which makes the "
+            "verify and recovery theorems hypothesis-free on these two curves. Model tied to the code by differential "
             "correspondence in both arithmetic configurations and an independent Python RFC 6979 on every run.",
     "note": "libsecp256k1 absent (its low-S normalising sign/verify is never run). 'Nonce never shared between distinct (key, hash)' is "
             "k = RFC6979(d, z) (proved against a specification written from the RFC) plus an assumption on HMAC-SHA256; unforgeability is a "
-            "cryptographic assumption, not a theorem. verify_iff and recover_sound carry the hypothesis n*Q = infinity (#E(F_p) = n is not "
-            "provable here). Known finding: on toy curves the retry loop k += 1 can reach k = n and raise TypeError (C01_sign_returns_refuted).",
+            "cryptographic assumption, not a theorem. The generic verify_iff_partial / recover_sound_partial carry the hypothesis "
+            "n*Q = infinity; for secp256k1 and secp256r1 it is discharged (C01_verify_iff_secp256k1/_secp256r1, C01_verify_neg_s_*, "
+            "C01_recover_sound_secp256k1/_secp256r1 hold for every curve point, no torsion or 2-torsion hypothesis): #E(F_p) = n is "
+            "proved in Lean without Hasse (#E <= 2p+1 < 3n, n | #E, no point of order two by a generated kernel-checked certificate). "
+            "Known finding: on toy curves the retry loop k += 1 can reach k = n and raise TypeError (C01_sign_returns_refuted).",
     "technique": "Lean 4 proof (Mathlib group law over ZMod p, field arithmetic mod n) + differential correspondence model vs "
                  "implementation per backend + independent RFC 6979 reference + exhaustive toy-curve enumeration (test)",
 }
@@ -463,6 +467,18 @@ def gen(ctx, emit):
         for r in sorted({1, 2, 3, p - 1, p, p + 1, n - 2, n - 1}):
             if 1 <= r < n:
                 emit("recover %s 5 %d 3 ~" % (tok, r))
+    # generators that are EQUAL AS TUPLES (same base-point coordinates) but different groups, used alternately in one
+    # process: recovery and signing on each must not be influenced by what another one was asked before
+    fam = cc.shared_base_family()
+    fam = fam[:4] + (fam[4:] if ctx.thorough else rng.sample(fam[4:], min(2, len(fam[4:]))))
+    for r in range(1, ctx.n(9, 30)):
+        for tok in fam:
+            n = consts(tok)[5]
+            if r < n:
+                emit("recover %s 5 %d 3 ~" % (tok, r), "shared-base-point")
+                emit("recover %s %d %d %d %s" % (tok, 1 + r % 7, r, 1 + (2 * r) % (n - 1), "01"[r & 1]), "shared-base-point")
+    for tok in fam[:3]:
+        emit("toy_sign %s 2 %d" % (tok, 6), "shared-base-point")
     chosen = rng.sample(toy, ctx.n(2, 40))
     for tok in chosen:
         p, ca, cb, gx, gy, n = consts(tok)
